@@ -34,13 +34,15 @@ def _nt(t):
 def perturb_parms(rng):
     p = copy.deepcopy(BASE_PARMS)
     k = rng.choice(['same', 'same', 'same', 'same', 'value', 'type', 'length', 'missing', 'extra', 'str', 'near-int', 'near-float',
-                    'flist', 'slist', 'bool', 'scalar-as-list', 'list-as-scalar', 'flist-int', 'slist-short'])
+                    'flist', 'slist', 'bool', 'scalar-as-list', 'list-as-scalar', 'flist-int', 'slist-short', 'nan-scalar'])
     if k == 'value':
         p['a'] = 2
     elif k == 'flist':
         p['f'] = [0.5, 2.5]
     elif k == 'slist':
         p['g'] = ['x', 'yz']
+    elif k == 'nan-scalar':          # a stored NaN where a number is requested (NaN equals only itself)
+        p['d'] = '__nan__'
     elif k == 'flist-int':           # stored whole numbers, requested fractions with the same integer parts
         p['f'] = [0, 1]
     elif k == 'slist-short':         # stored strings that are prefixes of the requested ones
@@ -157,6 +159,9 @@ def _mk_prior(parent, pr, n, mains):
         other = [d for d in DSETS if d != pr['dset']][0]
         g.attrs['source_000'] = (mains[pr['dset']] if pr['src_ref'] == 'this' else mains[other]).ref
     for k, v in pr['parms'].items():
+        if isinstance(v, str) and v == '__nan__':
+            g.attrs[k] = float('nan')
+            continue
         g.attrs[k] = v if not isinstance(v, list) else (np.array(v) if not isinstance(v[0], str) else np.array(v, dtype='S'))
     g.create_dataset('Results', data=np.full((n,), -5.0))
     prog = pr['progress']
@@ -183,6 +188,8 @@ def _dump(g):
         v = g.attrs[k]
         out['attrs'][k] = str(v) if isinstance(v, h5py.Reference) else np.asarray(v).tolist() \
             if np.asarray(v).dtype.kind not in 'SO' else str(v)
+        if isinstance(out['attrs'][k], float) and out['attrs'][k] != out['attrs'][k]:
+            out['attrs'][k] = 'nan'          # (NaN is unequal to itself: canonical text, or every dump would differ)
     for k in sorted(g.keys()):
         o = g[k]
         out[k] = [str(o.dtype), list(o.shape), np.asarray(o[()]).ravel().tolist()] if isinstance(o, h5py.Dataset) else 'group'
